@@ -19,8 +19,8 @@ ASSUMPTIONS = [
     'pre-state: the memory is an arbitrary array (solver variable); addresses, data and enables are variables: one step covers every history',
     'two ENABLED writes in one cycle are assumed to target distinct addresses (same-address double write is documented as undefined)',
     'CompiledSimulation: initial contents are concrete (baked into the C text): checked by BMC from boundary contents; its hash-map helper '
-    'text (insert/lookup) is given its own meaning by vf/chelper.py and checked against a functional map over a history of three symbolic inserts with a '
-    'lookup before and after each (keys < 2^16, bucket chains <= 3, unwinding assertions discharged, value storage by pointer); elsewhere it is modelled as a total map',
+    'text (insert/lookup) is given its own meaning by vf/chelper.py and checked against a functional map (16-, 40- and 64-bit addresses; declared width of node_t.key honoured) over a history of three symbolic inserts with a '
+    'lookup before and after each (bucket chains <= 3, unwinding assertions discharged, value storage by pointer); elsewhere it is modelled as a total map',
     'ROM: list / dict (with and without pad_with_zeros) / function data; holes raise PyrtlError exactly when documented',
     'stubs/merge points of vf/simdrv.py',
 ]
